@@ -148,7 +148,7 @@ func (vc *VC) Text(n int, extra string) string {
 	return sb.String()
 }
 
-func qualifier(p *types.Package) string { return p.Name() }
+func qualifier(p *types.Package) string { return p.Path() }
 
 func typeKey(t types.Type) string {
 	return types.TypeString(t, qualifier)
